@@ -272,6 +272,14 @@ func nilnessAt(v ssa.Value, q *ssa.BasicBlock) (bool, bool) {
 	return false, false
 }
 
+// NilnessAt exposes nilnessAt: the nil-ness of v on entry to block q as established by dominating tests.
+func NilnessAt(v ssa.Value, q *ssa.BasicBlock) (bool, bool) {
+	if isNil, known := nilness(v); known {
+		return isNil, true
+	}
+	return nilnessAt(v, q)
+}
+
 // nilness: (is nil, known) for values whose nil-ness is evident.
 func nilness(v ssa.Value) (bool, bool) {
 	switch x := v.(type) {
